@@ -8,6 +8,7 @@ import (
 	"math"
 	"regexp"
 	"strings"
+	"time"
 	"unicode"
 
 	"golang.org/x/tools/go/ssa"
@@ -254,6 +255,26 @@ func init() {
 		"os.Open":           extOsOpen,
 		"(*os.File).Read":   extFileRead,
 		"(*os.File).Close":  func(fr *frame, args []value) value { return iface{} },
+		// writes to os.Stdout/os.Stderr (diagnostics) are discarded
+		"(*os.File).Write": func(fr *frame, args []value) value {
+			return tuple{fr.i.b.BV(SBV64, uint64(len(args[1].([]value)))), iface{}}
+		},
+		"(*os.File).WriteString": func(fr *frame, args []value) value {
+			return tuple{fr.i.b.BV(SBV64, uint64(strLen(args[1]))), iface{}}
+		},
+
+		// ---- time (native on concrete arguments; time.Time is an opaque host value)
+		"time.Parse":           extTimeParse,
+		"time.ParseInLocation": extTimeParse,
+		"(time.Time).UTC":      func(fr *frame, args []value) value { return native{hostTime(fr, args[0]).UTC()} },
+		"(time.Time).Format":   func(fr *frame, args []value) value { return hostTime(fr, args[0]).Format(fr.i.concreteArg(args[1], "time layout")) },
+		"(time.Time).String":   func(fr *frame, args []value) value { return hostTime(fr, args[0]).String() },
+		"(time.Time).Unix":     func(fr *frame, args []value) value { return fr.i.b.BV(SBV64, uint64(hostTime(fr, args[0]).Unix())) },
+		"(time.Time).UnixNano": func(fr *frame, args []value) value { return fr.i.b.BV(SBV64, uint64(hostTime(fr, args[0]).UnixNano())) },
+		"(time.Time).Before":   func(fr *frame, args []value) value { return fr.i.b.Bool(hostTime(fr, args[0]).Before(hostTime(fr, args[1]))) },
+		"(time.Time).After":    func(fr *frame, args []value) value { return fr.i.b.Bool(hostTime(fr, args[0]).After(hostTime(fr, args[1]))) },
+		"(time.Time).Equal":    func(fr *frame, args []value) value { return fr.i.b.Bool(hostTime(fr, args[0]).Equal(hostTime(fr, args[1]))) },
+		"(time.Time).IsZero":   func(fr *frame, args []value) value { return fr.i.b.Bool(hostTime(fr, args[0]).IsZero()) },
 
 		// ---- fmt
 		"fmt.Sprintf":  extSprintf,
@@ -1093,4 +1114,34 @@ func extFileRead(fr *frame, args []value) value {
 		f.pos++
 	}
 	return tuple{i.b.BV(SBV64, uint64(n)), iface{}}
+}
+
+// ---------------------------------------------------------------- time
+
+func hostTime(fr *frame, v value) time.Time {
+	if n, ok := v.(native); ok {
+		if t, ok := n.v.(time.Time); ok {
+			return t
+		}
+	}
+	if _, ok := v.(structure); ok {
+		return time.Time{} // the zero value built by the interpreted program
+	}
+	fr.i.unsupported("time.Time value of unexpected shape %T", v)
+	return time.Time{}
+}
+
+func extTimeParse(fr *frame, args []value) value {
+	i := fr.i
+	layout := i.concreteArg(args[0], "time.Parse layout")
+	val := i.concreteArg(args[1], "time.Parse value")
+	i.ex.run.noteStub("time.Parse/Format/UTC run natively on concrete strings (locations other than UTC are not modelled)")
+	t, err := time.Parse(layout, val)
+	if len(args) == 3 {
+		t, err = time.ParseInLocation(layout, val, time.UTC)
+	}
+	if err != nil {
+		return tuple{native{time.Time{}}, i.mkError(err.Error())}
+	}
+	return tuple{native{t}, iface{}}
 }
